@@ -35,7 +35,7 @@ Definition agg_step (c : Committee) (st : agg_state) (op : AggOp) : agg_state * 
   | ATimeout t =>
       let '(m', r) := tm_append c (tcm_get (t_round t) tcm) t in
       ((qcm, tcm_put (t_round t) m' tcm), match r with ROk (Some x) => ATC x | ROk None => ANone | _ => AErr end)
-  | ACleanup r => ((filter (fun e => r <=? fst (fst e)) qcm, filter (fun e => r <=? fst e) tcm), ANone)
+  | ACleanup r => ((filter (fun e => g_agg_keep_votes (fst (fst e)) r) qcm, filter (fun e => g_agg_keep_timeouts (fst e) r) tcm), ANone)
   end.
 Fixpoint agg_run (c : Committee) (st : agg_state) (ops : list AggOp) : list AggRes :=
   match ops with [] => [] | op :: r => let '(st', x) := agg_step c st op in x :: agg_run c st' r end.
